@@ -14,9 +14,11 @@ VERIF = os.path.dirname(os.path.dirname(os.path.abspath(__file__)))
 TIMEOUT_MS = int(os.environ.get('PYVC_TIMEOUT_MS', '20000'))
 
 
-def solve(pc, goal, timeout_ms=None, extra=(), want_model=False):
+def solve(pc, goal, timeout_ms=None, extra=(), want_model=False, seed=None):
     s = z3.Solver()
     s.set('timeout', timeout_ms or TIMEOUT_MS)
+    if seed is not None:
+        s.set('smt.random_seed', seed)
     for c in pc:
         s.add(c)
     for c in extra:
@@ -48,7 +50,7 @@ def discharge_grouped(obs, props=None, timeout_ms=None, refine_budget=3):
     for o in obs:
         if props is not None and o.prop not in props:
             continue
-        key = (o.func, o.path, o.prop, id(o.pc[-1]) if o.pc else 0, len(o.pc))
+        key = (o.func, o.path, o.prop, id(o.pc[-1]) if o.pc else 0, len(o.pc), o.info.get('deny'))
         groups.setdefault(key, []).append(o)
     recs = []
     nq = 0
@@ -66,29 +68,157 @@ def discharge_grouped(obs, props=None, timeout_ms=None, refine_budget=3):
                 recs.append(_rec(m, 'unrefined', 0.0, 'skipped: %d groups of this case already failed' % failing))
             continue
         if len(members) > 1:
-            r, ms, _, reason = solve(members[0].pc, z3.And(*goals), timeout_ms)
-            nq += 1
+            g = Group(members)
+            r, ms, reason, n = prove(g, timeout_ms, quick=True)
+            nq += n
             if r == 'unsat':
                 for m in members:
-                    recs.append(_rec(m, 'unsat', ms / len(members), 'group'))
+                    recs.append(_rec(m, 'unsat', ms / len(members), 'group:' + reason))
                 continue
-            failing += 1
             bk = (key[0], key[2])
             if refined[bk] >= refine_budget:
+                failing += 1
                 for m in members:
                     recs.append(_rec(m, 'unrefined', 0.0, 'group %s (%s); refinement budget used up' % (r, reason)))
                 continue
-            refined[bk] += 1
+        anybad = False
         for m in members:
             if z3.is_true(z3.simplify(m.goal)):
                 recs.append(_rec(m, 'unsat', 0.0, 'trivial'))
                 continue
-            r, ms, _, reason = solve(m.pc, m.goal, CLAUSE_MS)
-            nq += 1
-            if r != 'unsat' and len(members) == 1:
-                failing += 1
+            r, ms, reason, n = prove(m, CLAUSE_MS)
+            nq += n
+            if r != 'unsat':
+                anybad = True
             recs.append(_rec(m, r, ms, reason, ob=m if r != 'unsat' else None))
+        # a group whose conjunction timed out but whose clauses all discharge one by one is not a failure
+        if anybad:
+            failing += 1
+            if len(members) > 1:
+                refined[(key[0], key[2])] += 1
     return recs, nq
+
+
+class Group(object):
+    """conjunction of the goals of obligations that share one path condition"""
+
+    def __init__(self, members):
+        self.pc = members[0].pc
+        self.goal = z3.And(*[m.goal for m in members])
+        self.cuts = getattr(members[0], 'cuts', ())
+        self.info = members[0].info
+
+
+def filtered_pc(pc, goal, deny):
+    """drop the *quantified* premises that mention a denied state component (a symbol whose name matches
+    the regular expression `deny`) unless the goal mentions it too.  Dropping premises is always sound for
+    a proof; ground premises (path conditions) are cheap and all kept."""
+    import re
+    from .symex import _has_quantifier
+    rx = re.compile(deny)
+    gs = symbols_of(goal)
+    out = []
+    for p in pc:
+        if _has_quantifier(p):
+            bad = [n for n in symbols_of(p) if rx.match(n) and n not in gs]
+            if bad:
+                continue
+        out.append(p)
+    return out
+
+
+def prove(ob, timeout_ms, quick=False):
+    """pc => goal by a sequence of sound strategies; -> (result, ms, how, number of queries).
+    1. premises restricted to the state components the clause reads (info['deny']), 2. the full path
+    condition, 3. prefixes of the path condition that end at a loop-havoc cut point, 4. other solver seeds.
+    `unsat` from any strategy is a proof (premises are only ever dropped).  `sat` is reported only for the
+    full path condition."""
+    t0 = time.time()
+    n = 0
+    deny = ob.info.get('deny') if ob.info else None
+    variants = []
+    if deny:
+        variants.append(('reads', filtered_pc(ob.pc, ob.goal, deny)))
+    variants.append(('full', ob.pc))
+    last = ('unknown', '')
+    for how, pc in variants:
+        r, ms, _, reason = solve(pc, ob.goal, timeout_ms)
+        n += 1
+        if r == 'unsat':
+            return r, (time.time() - t0) * 1000.0, how, n
+        if how == 'full':
+            last = (r, reason)
+    if quick:
+        return last[0], (time.time() - t0) * 1000.0, last[1], n
+    cuts = getattr(ob, 'cuts', ())
+    if cuts:
+        alt = solve_with_cuts(ob, timeout_ms, deny)
+        n += 1
+        if alt is not None:
+            return alt[0], (time.time() - t0) * 1000.0, alt[2], n
+    if last[0] != 'sat':
+        pc = variants[0][1]
+        for seed in (1, 2, 3):
+            r, ms, _, reason = solve(pc, ob.goal, timeout_ms, seed=seed)
+            n += 1
+            if r == 'unsat':
+                return r, (time.time() - t0) * 1000.0, '%s/seed%d' % (variants[0][0], seed), n
+    return last[0], (time.time() - t0) * 1000.0, last[1], n
+
+
+_SYMS = {}
+
+
+def symbols_of(e):
+    """names of the uninterpreted constants / functions occurring in a term (cached by ast id)"""
+    k = e.get_id()
+    r = _SYMS.get(k)
+    if r is None:
+        r = set()
+        todo = [e]
+        seen = set()
+        while todo:
+            t = todo.pop()
+            i = t.get_id()
+            if i in seen:
+                continue
+            seen.add(i)
+            if z3.is_quantifier(t):
+                todo.append(t.body())
+                continue
+            if z3.is_app(t):
+                d = t.decl()
+                if d.kind() == z3.Z3_OP_UNINTERPRETED:
+                    r.add(d.name())
+                todo.extend(t.children())
+        _SYMS[k] = r
+    return r
+
+
+def solve_with_cuts(ob, timeout_ms, deny=None):
+    """pc => goal, tried on prefixes of the path condition that end at a loop-havoc cut point.
+    Dropping premises is always sound for a proof; a prefix is tried only when the goal mentions no
+    symbol that is introduced after the cut (then the later premises are about other things: the
+    query is the one a path without the later loop would have produced)."""
+    gs = symbols_of(ob.goal)
+    for c in sorted(set(ob.cuts), reverse=True):
+        if c <= 0 or c >= len(ob.pc):
+            continue
+        before = set()
+        for p in ob.pc[:c]:
+            before |= symbols_of(p)
+        later = set()
+        for p in ob.pc[c:]:
+            later |= symbols_of(p)
+        if gs & (later - before):
+            continue
+        pc = ob.pc[:c]
+        if deny:
+            pc = filtered_pc(pc, ob.goal, deny)
+        r, ms, _, reason = solve(pc, ob.goal, timeout_ms)
+        if r == 'unsat':
+            return r, ms, 'cut@%d' % c
+    return None
 
 
 def _rec(o, res, ms, reason, ob=None):
